@@ -705,7 +705,7 @@ impl Inst {
                     .await;
                 Ok(Reply::Uids(rx))
             }
-            "rm" => {
+            "rm" | "rs" => {
                 let id: u64 = parts[1].parse().map_err(|_| "id")?;
                 self.set_clock(0);
                 let mut p = Parameters::default();
@@ -723,6 +723,15 @@ impl Inst {
                 }}"#,
                     id
                 );
+                if kind == "rs" {
+                    let (tx, rx) = mpsc::channel(2);
+                    let _ = self
+                        .svc
+                        .sender
+                        .send(DbMessage::MutateStream(text, p, tx))
+                        .await;
+                    return Ok(Reply::Stream(rx));
+                }
                 let (tx, rx) = oneshot::channel();
                 let _ = self.svc.sender.send(DbMessage::Mutate(text, p, tx)).await;
                 Ok(Reply::Mutation(rx))
